@@ -6,7 +6,7 @@
    leveldb, pebble, memorydb, rawdb table since the F1 repair) -- StateProcessor.Process. *)
 From Coq Require Import List NArith Bool.
 From GQ Require Import Lib.Key Lib.SMap Generated.C01Params Model.C01 Proofs.C01_View Proofs.C01_Sim
-     Proofs.C01_Steps Proofs.C01_Ledger Proofs.C01_Den Proofs.C01_Worker Proofs.C01_Worker2 Proofs.C01.
+     Proofs.C01_Steps Proofs.C01_Ledger Proofs.C01_Den Proofs.C01_Worker Proofs.C01_Worker2 Proofs.C01 Proofs.C01_Worker3.
 Import ListNotations.
 Local Open Scope N_scope.
 
@@ -178,6 +178,19 @@ Theorem worker_block_accepted_qi : forall c (l : ledger) txs, sorted l ->
 Proof. exact worker_block_accepted_view. Qed.
 Print Assumptions worker_block_accepted_qi.
 
+(* ... and, with NO hypothesis about the pool, keys or signatures: the pending block the worker assembles
+   (any list of candidate transactions, any number of them conflicting, whatever is rejected in between and
+   for whatever reason) names every outpoint at most once -- inside one transaction and across the included
+   transactions -- and every outpoint it names is an unlocked record of the committed database.  It rests on
+   env.deletedUtxos only ever growing inside one pending block: the model keeps the reservation of a
+   rejected transaction, as worker.go does. *)
+Theorem worker_block_spends_once : forall c (l : ledger) txs,
+  NoDup (concat (map named (accepted_txs txs (fst (worker_txs c l true (init_wenv c) txs)))))
+  /\ Forall (fun t => Forall (fun i => exists u, get (i_op i) l = Some u /\ u_lock u <= c_height c) (t_ins t))
+            (accepted_txs txs (fst (worker_txs c l true (init_wenv c) txs))).
+Proof. exact worker_block_spends_once_lemma. Qed.
+Print Assumptions worker_block_spends_once.
+
 (* ---- non-vacuity: concrete accepted / rejected instances of the hypotheses above *)
 
 (* an accepted one-input transaction: 1000 -> 500 + 100, fee 400 *)
@@ -211,3 +224,24 @@ Example worker_nonvacuous :
   /\ validate_inputs w_ctx w_ledger x_tx1 = true /\ validate_inputs w_ctx w_ledger x_tx2 = true
   /\ fresh w_ledger x_tx1 /\ fresh w_ledger x_tx2.
 Proof. split; [vm_compute; reflexivity|]. split; [vm_compute; reflexivity|]. split; [vm_compute; reflexivity|]. split; intros i; reflexivity. Qed.
+
+(* three pool-valid spenders of one outpoint: the worker includes the first only (not the third) *)
+Example worker_triple_spend_nonvacuous :
+  map (fun o => match o with Some _ => true | None => false end)
+      (fst (worker_txs w_ctx w_ledger true (init_wenv w_ctx) [x_tx1; x_tx2; x_tx2b])) = [true; false; false]
+  /\ map (validate_inputs w_ctx w_ledger) [x_tx1; x_tx2; x_tx2b] = [true; true; true].
+Proof. split; vm_compute; reflexivity. Qed.
+
+(* ownership is per input: a key carried twice where the second occurrence names somebody else's record is
+   refused by ProcessQiTx (signature bit set: the holder signed alone, validly; with and without checkSig)
+   and by the pool check; the same transaction is accepted when both records are his *)
+Example qi_repeated_key_nonvacuous :
+  run_block true y_ledger_foreign w_ctx [y_tx true] = ([], false, y_ledger_foreign)
+  /\ run_block true y_ledger_foreign w_ctx [y_tx false] = ([], false, y_ledger_foreign)
+  /\ validate_inputs w_ctx y_ledger_foreign (y_tx true) = false
+  /\ (exists rs l', run_block true y_ledger_own w_ctx [y_tx true] = (rs, true, l') /\ map r_fee rs = [500])
+  /\ validate_inputs w_ctx y_ledger_own (y_tx true) = true.
+Proof.
+  split; [vm_compute; reflexivity|]. split; [vm_compute; reflexivity|]. split; [vm_compute; reflexivity|].
+  split; [|vm_compute; reflexivity]. eexists; eexists. split; [vm_compute; reflexivity|reflexivity].
+Qed.
